@@ -8,6 +8,8 @@ import H2.Proofs.PairCredit
 -- the credit equation of one window between two endpoints, everything in flight (arithmetic of windows.py + C03/C04/C11)
 -- @also H2.PairCredit.data_never_overruns
 import H2.Proofs.StreamLemmas
+import H2.Proofs.Send
+import H2.Proofs.ApiOk
 
 namespace H2.C04
 open H2 H2.Gen H2.Conn
@@ -75,25 +77,26 @@ theorem C04_query (c : Conn) (sid : Int) (st : Stream) (h : c.streams.lookup sid
     `increment_flow_control_window(n)`, the advertised connection window and every stream are as before -/
 theorem C04_increment_conn_atomic (c : Conn) (n : Int) (hmax : 4 ≤ c.maxOutFrame) :
     wp (incrementFlowControlWindow n none)
-      (fun _ c' => c'.inWM.current_window_size = c.inWM.current_window_size + n ∧ c'.streams = c.streams)
-      (fun _ c' => c'.inWM = c.inWM ∧ c'.streams = c.streams ∧ c'.out = c.out) c := by
+      (fun _ c' => c'.inWM.current_window_size = c.inWM.current_window_size + n ∧ c'.streams = c.streams ∧
+          c'.sent = c.sent ++ [Frame.windowUpdate 0 n] ∧ c'.outWin = c.outWin)
+      (fun _ c' => c'.inWM = c.inWM ∧ c'.streams = c.streams ∧ c'.out = c.out ∧ c'.sent = c.sent ∧ c'.outWin = c.outWin) c := by
   obtain ⟨b, hb, hl⟩ := wu_serialize 0 n
   simp only [incrementFlowControlWindow]
   wps
   have hM : MAX_WINDOW_INCREMENT = 2147483647 := rfl
   by_cases hr : (!(decide (1 ≤ n) && decide (n ≤ MAX_WINDOW_INCREMENT))) = true
-  · rw [if_pos hr]; exact ⟨trivial, trivial, trivial⟩
+  · rw [if_pos hr]; exact ⟨trivial, trivial, trivial, trivial, trivial⟩
   · rw [if_neg hr]
     have hn : 1 ≤ n ∧ n ≤ 2147483647 := by rw [← hM]; simpa using hr
     cases htab : connTable c.cstate .SEND_WINDOW_UPDATE with
-    | none => rw [wp_connInput_err _ _ htab]; first | exact ⟨rfl, rfl, rfl⟩ | simp
+    | none => rw [wp_connInput_err _ _ htab]; first | exact ⟨rfl, rfl, rfl, rfl, rfl⟩ | simp
     | some t =>
       rw [wp_connInput_ok _ _ _ htab]
       wps
       rw [wp_onConnWM]
       by_cases hov : c.inWM.current_window_size + n > 2147483647
       · simp only [(C04_opened c.inWM n).1 hov]
-        first | exact ⟨rfl, rfl, rfl⟩ | simp
+        first | exact ⟨rfl, rfl, rfl, rfl, rfl⟩ | simp
       · have hle : c.inWM.current_window_size + n ≤ 2147483647 := by omega
         obtain ⟨h1, h2, _⟩ := (C04_opened c.inWM n).2 hle
         cases hw : c.inWM.window_opened n with
@@ -104,7 +107,7 @@ theorem C04_increment_conn_atomic (c : Conn) (n : Int) (hmax : 4 ≤ c.maxOutFra
           wps
           rw [wp_prepare_eq [Frame.windowUpdate 0 n] _ [b] (by simp) (by simp [hb])
             (by simp only [List.all_cons, List.all_nil, Bool.and_true, hl, decide_eq_true_eq]; exact hmax)]
-          exact ⟨h2, rfl⟩
+          exact ⟨h2, rfl, rfl, rfl⟩
 
 /-- `acknowledge_received_data` for a stream id that was never used raises NoSuchStreamError and changes nothing -/
 theorem C04_ack_unknown_atomic (c : Conn) (size sid : Int) (hno : hasStream c sid = false)
@@ -123,5 +126,172 @@ example : ({ max_window_size := 65535, current_window_size := 100, bytes_process
     (({ max_window_size := 65535, current_window_size := 100, bytes_processed := 0 } : WindowManager).window_consumed 101).1
       = .error (.h2 .FlowControlError) := by
   constructor <;> rfl
+
+/-! ### the ledger: what each window-related operation does to the connection-level windows and to what is written -/
+
+/-- total flow-controlled length of the DATA frames in a list -/
+def dataFcl : List Frame → Int
+  | [] => 0
+  | .data _ p _ pad :: fs => (p.length : Int) + (match pad with | some q => q + 1 | none => 0) + dataFcl fs
+  | _ :: fs => dataFcl fs
+/-- total of the connection-level WINDOW_UPDATE increments in a list -/
+def wu0 : List Frame → Int
+  | [] => 0
+  | .windowUpdate sid n :: fs => (if sid = 0 then n else 0) + wu0 fs
+  | _ :: fs => wu0 fs
+
+theorem wu0_append (a b : List Frame) : wu0 (a ++ b) = wu0 a + wu0 b := by
+  induction a with
+  | nil => simp [wu0]
+  | cons f t ih => cases f <;> simp [wu0, ih] <;> omega
+theorem dataFcl_append (a b : List Frame) : dataFcl (a ++ b) = dataFcl a + dataFcl b := by
+  induction a with
+  | nil => simp [dataFcl]
+  | cons f t ih => cases f <;> simp [dataFcl, ih] <;> omega
+
+/-- `H2Stream.receive_data` returns no frames -/
+theorem stream_receiveData_no_frames (data : Bytes) (es : Bool) (fcl : Int) (st : Stream) :
+    wp (Stream.receiveData data es fcl) (fun fe _ => fe.1 = []) (fun _ _ => True) st := by
+  unfold Stream.receiveData
+  wps
+  apply wp_havoc
+  · intro evs s1
+    wps
+    apply wp_havoc
+    · intro _ s2
+      wps
+      apply wp_havoc
+      · intro _ s3
+        wps
+        cases es with
+        | false =>
+          simp only [Bool.false_eq_true, if_false]
+          try wps
+          cases evs with
+          | nil => trivial
+          | cons e t =>
+            simp only [Bool.false_and, Bool.false_eq_true, if_false]
+            try wps
+        | true =>
+          simp only [if_true]
+          apply wp_havoc
+          · intro es2 s4
+            cases evs with
+            | nil => trivial
+            | cons e t =>
+              simp only
+              split
+              · trivial
+              · wps
+          · intro _ _; trivial
+      · intro _ _; trivial
+    · intro _ _; trivial
+  · intro _ _; trivial
+
+/-- **what a received DATA frame does to the ledger**, any state, any frame: the handler writes nothing itself and
+    leaves the outbound window alone; if it returns, the connection's inbound window went down by the frame's
+    flow-controlled length and up by exactly the connection-level WINDOW_UPDATE increments among the frames it hands back
+    (none on a live stream; on a closed stream the bytes are handed straight back, `process_bytes`), and it hands back
+    no DATA -/
+theorem C04_recv_data_ledger (c : Conn) (sid : Int) (payload : Bytes) (es : Bool) (fcl : Int) :
+    wp (receiveDataFrame sid payload es fcl)
+      (fun fe c' => c'.outWin = c.outWin ∧ c'.sent = c.sent ∧
+          c'.inWM.current_window_size = c.inWM.current_window_size - fcl + wu0 fe.1 ∧ dataFcl fe.1 = 0)
+      (fun _ c' => c'.outWin = c.outWin ∧ c'.sent = c.sent) c := by
+  unfold receiveDataFrame
+  wps
+  cases ht : connTable c.cstate .RECV_DATA with
+  | none => rw [wp_connInput_err _ _ ht]; exact ⟨rfl, rfl⟩
+  | some t =>
+    rw [wp_connInput_ok _ _ _ ht]
+    wps
+    rw [wp_onConnWM]
+    have hcons := (C04_consumed c.inWM fcl).2
+    cases hw : c.inWM.window_consumed fcl with
+    | mk r w =>
+      rw [hw] at hcons
+      simp only at hcons
+      cases r with
+      | error e => exact ⟨rfl, rfl⟩
+      | ok v =>
+        simp only
+        wps
+        rw [wp_getStreamById_eq]
+        -- the closed-stream handler
+        have closed : ∀ (cls : ExcClass) (code : Option Int) (esid : Option Int) (evs : List Event) (c2 : Conn),
+            c2.outWin = c.outWin → c2.sent = c.sent → c2.inWM = w →
+            wp (do
+              let incr ← onConnWM (·.process_bytes fcl)
+              let frames := match incr with
+                | some n => if n != 0 then [Frame.windowUpdate 0 n] else []
+                | none => []
+              match (Exc.h2 cls code esid evs) with
+              | .h2 _ code esid evs => pure (frames ++ [Frame.rstStream (esid.getD 0) (code.getD 0)], evs)
+              | _ => pure (frames, []))
+              (fun fe c' => c'.outWin = c.outWin ∧ c'.sent = c.sent ∧
+                c'.inWM.current_window_size = c.inWM.current_window_size - fcl + wu0 fe.1 ∧ dataFcl fe.1 = 0)
+              (fun _ c' => c'.outWin = c.outWin ∧ c'.sent = c.sent) c2 := by
+          intro cls code esid evs c2 h1 h2 h3
+          wps
+          rw [wp_onConnWM, h3]
+          have hpb := C04_process_bytes w fcl
+          cases hp : w.process_bytes fcl with
+          | mk r2 w2 =>
+            rw [hp] at hpb
+            cases r2 with
+            | error e => exact hpb.elim
+            | ok v2 =>
+              simp only at hpb ⊢
+              wps
+              refine ⟨h1, h2, ?_, ?_⟩
+              · cases v2 with
+                | none =>
+                  simp only at hpb
+                  show w2.current_window_size = _
+                  rw [hpb.1, hcons]; simp [wu0]
+                | some n =>
+                  simp only at hpb
+                  show w2.current_window_size = _
+                  rw [hpb.1, hcons]
+                  by_cases hn : n = 0
+                  · subst hn; simp [wu0]
+                  · have : (n != 0) = true := by simpa using hn
+                    simp [this, wu0]
+              · cases v2 with
+                | none => simp [dataFcl]
+                | some n => by_cases hn : (n != 0) = true <;> simp [hn, dataFcl]
+        by_cases hex : hasStream { c with cstate := t, inWM := w } sid = true
+        · rw [if_pos hex]
+          rw [wp_withStream]
+          cases hl : ({ c with cstate := t, inWM := w } : Conn).streams.lookup sid with
+          | none => simp only; first | exact ⟨rfl, rfl⟩ | exact ⟨trivial, trivial⟩
+          | some st =>
+            simp only
+            refine wp_mono (stream_receiveData_no_frames payload es fcl st) ?_ ?_
+            · intro fe st' hfe
+              refine ⟨rfl, rfl, ?_, ?_⟩
+              · show w.current_window_size = _
+                rw [hcons, hfe]; simp [wu0]
+              · rw [hfe]; rfl
+            · intro e st' _
+              by_cases hi : e.isInstance .StreamClosedError = true
+              · rw [if_pos hi]
+                cases e with
+                | py k => simp [Exc.isInstance] at hi
+                | h2 cls code esid evs =>
+                  have hcl := closed cls code esid evs (setStream { c with cstate := t, inWM := w } sid st') rfl rfl rfl
+                  simp only [wp_bind, wp_pure, wp_Mpure, wp_raise, wp_getS, wp_modifyS, wp_ite, wp_liftExcept, wp_tryCatch, wp_zoom] at hcl ⊢
+                  exact hcl
+              · rw [if_neg hi]; exact ⟨rfl, rfl⟩
+        · rw [if_neg hex]
+          have hi1 : (Exc.h2 ExcClass.NoSuchStreamError (ExcClass.NoSuchStreamError.classCode.map Int.ofNat) (some sid) []).isInstance .StreamClosedError = false := rfl
+          have hi2 : (mkStreamClosed sid).isInstance .StreamClosedError = true := rfl
+          by_cases hhi : sid > (if streamIdIsOutbound ({ c with cstate := t, inWM := w } : Conn) sid = true
+              then ({ c with cstate := t, inWM := w } : Conn).highestOut else ({ c with cstate := t, inWM := w } : Conn).highestIn)
+          · rw [if_pos hhi, hi1]; simp only [Bool.false_eq_true, if_false]; first | exact ⟨rfl, rfl⟩ | exact ⟨trivial, trivial⟩
+          · rw [if_neg hhi, hi2]; simp only [if_true]
+            have hcl := closed .StreamClosedError (some (Int.ofNat streamClosedErrorCode)) (some sid) [] ({ c with cstate := t, inWM := w } : Conn) rfl rfl rfl
+            simp only [mkStreamClosed, wp_bind, wp_pure, wp_Mpure, wp_raise, wp_getS, wp_modifyS, wp_ite, wp_liftExcept, wp_tryCatch, wp_zoom] at hcl ⊢
+            exact hcl
 
 end H2.C04
